@@ -56,5 +56,7 @@ pub const RECV_UNLOCK_WAIT: u32 = 36;
 pub const RECV_NOTIFIED: u32 = 37;
 pub const RECV_LOAD_CLOSED2: u32 = 38;
 pub const RECV_STORE_ENDED2: u32 = 39;
+/// before `self.notify.notified()` (creation snapshots the notify_waiters counter)
+pub const RECV_NOTIFIED_CREATE: u32 = 42;
 pub const STOP_STORE_ENDED: u32 = 40;
 pub const STOP_NOTIFY: u32 = 41;
